@@ -1,0 +1,46 @@
+//! Verification hooks. This module only exists when the crate is compiled
+//! with `--cfg deadpool_verif`; it is not part of the public API.
+
+use std::sync::{Arc, RwLock};
+
+type Callback = Arc<dyn Fn(&'static str) + Send + Sync>;
+
+static CALLBACK: RwLock<Option<Callback>> = RwLock::new(None);
+
+/// Installs (or removes) the process-global callback that is invoked at every
+/// schedule point.
+pub fn set_point_callback(cb: Option<Callback>) {
+    *CALLBACK.write().unwrap() = cb;
+}
+
+/// A named schedule point. Does nothing unless a callback is installed.
+#[inline(never)]
+pub fn point(name: &'static str) {
+    let cb = CALLBACK.read().unwrap().clone();
+    if let Some(cb) = cb {
+        cb(name);
+    }
+}
+
+/// Read-only snapshot of the internal state of a managed pool.
+#[derive(Clone, Copy, Debug)]
+pub struct ManagedSnapshot {
+    pub permits: usize,
+    pub closed: bool,
+    pub size: usize,
+    pub max_size: usize,
+    pub users: usize,
+    pub idle: usize,
+}
+
+/// Read-only snapshot of the internal state of an unmanaged pool.
+#[derive(Clone, Copy, Debug)]
+pub struct UnmanagedSnapshot {
+    pub permits: usize,
+    pub size_permits: usize,
+    pub closed: bool,
+    pub size: usize,
+    pub available: isize,
+    pub queue: usize,
+    pub max_size: usize,
+}
